@@ -22,7 +22,11 @@ func (api *API) encode(ctx context.Context, value reflect.Value, ts TypeSettings
 		}
 	}
 
-	if serializable, ok := valueI.(Serializable); ok {
+	serializable, ok := valueI.(Serializable)
+	if !ok {
+		serializable, ok = addrSerializable[Serializable, Deserializable](value, valueType)
+	}
+	if ok {
 		typeSettingValue := value
 		if valueType.Kind() == reflect.Interface {
 			typeSettingValue = value.Elem()
